@@ -630,6 +630,8 @@ def run_item(ctx, item):
                 k = rng.randint(0, 100000)                      # near a half tick
                 t = float(Fraction((2 * k + 1) * mpq, 2 * 10**6 * ppq)) + rng.choice([0, 1e-7, -1e-7, 1e-4, -1e-4])
                 t = max(t, 0.0)
+            if shape < 0.75 and rng.random() < 0.15:
+                t = -t                                          # an event before the time origin
             r = ctx.call(M.seconds_to_midi_ticks, t, mpq, ppq)
             back = ctx.call(M.midi_ticks_to_seconds, r, mpq, ppq)
             ctx.check()
